@@ -107,6 +107,30 @@ func variants() []extVariant {
 		{"vnull", func(r *hx.Rand, p []string) (string, string) { return strHash("null", sha(pick(r, p))) }},
 		{"v1.5", func(r *hx.Rand, p []string) (string, string) { return strHash("1.5", sha(pick(r, p))) }},
 		{"vabsent", func(r *hx.Rand, p []string) (string, string) { return strHash("", sha(pick(r, p))) }},
+		// member names are case-sensitive protocol keys: a differently-cased key is a different (unknown) member
+		{"key-case-Version", func(r *hx.Rand, p []string) (string, string) {
+			h := sha(pick(r, p))
+			return `{"persistedQuery":{"` + hx.Pick(r, []string{"Version", "VERSION", "vErsion"}) + `":1,"sha256Hash":"` + h + `"}}`, hx.N("ext", hx.A("other"), hx.N("str", hx.A(h))).String()
+		}},
+		{"key-case-both", func(r *hx.Rand, p []string) (string, string) {
+			h := sha(pick(r, p))
+			return `{"persistedQuery":{"VERSION":1,"SHA256HASH":"` + h + `"}}`, hx.N("ext", hx.A("other"), hx.A("nostr")).String()
+		}},
+		{"key-case-hash", func(r *hx.Rand, p []string) (string, string) {
+			h := sha(pick(r, p))
+			return `{"persistedQuery":{"version":1,"` + hx.Pick(r, []string{"Sha256Hash", "SHA256HASH", "sha256hash"}) + `":"` + h + `"}}`, hx.N("ext", hx.A("one"), hx.A("nostr")).String()
+		}},
+		{"key-case-top", func(r *hx.Rand, p []string) (string, string) {
+			return `{"` + hx.Pick(r, []string{"PersistedQuery", "persistedquery", "PERSISTEDQUERY"}) + `":{"version":1,"sha256Hash":"` + sha(pick(r, p)) + `"}}`, "none"
+		}},
+		{"v2-and-Version1", func(r *hx.Rand, p []string) (string, string) {
+			h := sha(pick(r, p))
+			return `{"persistedQuery":{"version":2,"Version":1,"sha256Hash":"` + h + `"}}`, hx.N("ext", hx.A("other"), hx.N("str", hx.A(h))).String()
+		}},
+		{"extra-members", func(r *hx.Rand, p []string) (string, string) {
+			h := sha(pick(r, p))
+			return `{"other":[1],"persistedQuery":{"junk":{"version":1},"version":1,"sha256Hash":"` + h + `","sha256hash":"00"}}`, hx.N("ext", hx.A("one"), hx.N("str", hx.A(h))).String()
+		}},
 	}
 }
 
@@ -295,13 +319,11 @@ func (h *harness) playHistory(hist []Step) (what, kind string) {
 		}
 		if s.Query == "" && strings.HasPrefix(s.ModelExt, "(ext one") && !nf && o.Status == 200 {
 			// hash-only request that executed something: it must be a registered text with that digest (or "")
-			var ext struct {
-				PersistedQuery struct {
-					Hash interface{} `json:"sha256Hash"`
-				} `json:"persistedQuery"`
-			}
+			// exact member names (a struct would match keys case-insensitively — the very mistake to catch)
+			var ext map[string]interface{}
 			json.Unmarshal([]byte(s.ExtJSON), &ext)
-			hs, _ := ext.PersistedQuery.Hash.(string)
+			pqm, _ := ext["persistedQuery"].(map[string]interface{})
+			hs, _ := pqm["sha256Hash"].(string)
 			key, _ := hex.DecodeString(hs)
 			ok := false
 			if bytes.Equal(key, func() []byte { d := sha256.Sum256(nil); return d[:] }()) && o.Body == h.reference("").Body {
@@ -446,7 +468,7 @@ func main() {
 			run.Violate("correspondence", "the Lean SHA-256 disagrees with crypto/sha256: "+bad, "", true, bad)
 		}
 	}
-	run.SetRule("histories of requests {GET,POST} × {no text, 7 texts (valid, invalid, multi-operation)} × 20 extension spellings against one recording storage; distinct = distinct history; non-trivial = contains a version-1 registration and a version-1 hash-only lookup")
+	run.SetRule("histories of requests {GET,POST} × {no text, 7 texts (valid, invalid, multi-operation)} × 26 extension spellings (incl. differently-cased member names) against one recording storage; distinct = distinct history; non-trivial = contains a version-1 registration and a version-1 hash-only lookup")
 
 	if run.Replay != "" {
 		var hist []Step
